@@ -30,7 +30,7 @@ man = {
     "setup_cmd": "./setup.sh",
     "hooks": {
         "guard": "mpd_client_verif",
-        "enable": "no hooks are needed: the harness observes everything through the public API and a scripted transport; /repo is built unmodified as a path dependency of /verif/harness",
+        "enable": "no hooks in /repo are needed: the harness observes everything through the public API and a scripted transport; /repo is built unmodified as a path dependency of /verif/harness. The harness crate itself (not /repo) is built with --cfg tokio_unstable (harness/.cargo/config.toml) so that tokio's select! branch order comes from a seed the schedule records (Builder::rng_seed)",
         "baseline_off_cmd": "cd /repo && cargo test --workspace --no-fail-fast --offline",
         "source_commits": [],
         "add_only": True,
